@@ -249,7 +249,17 @@ def _taken_params(p: Path):
             nxt = evs[e.idx + 1] if e.idx + 1 < len(evs) else None
             if nxt is not None and nxt.kind == "throw":
                 continue
-            out.append((e, f"$c{e.idx}"))
+            ph = f"$c{e.idx}"
+            if len(e.term.args) == 2 and isinstance(e.term.args[1], ast.Constant) and e.term.args[1].value is None:
+                # next(it, None): exhausted when the path established that the result is None
+                none = [b for b in p.of("branch") if b.idx > e.idx and isinstance(b.term, ast.Compare) and len(b.term.ops) == 1
+                        and isinstance(b.term.ops[0], (ast.Is, ast.IsNot)) and show(b.term.left) == ph
+                        and isinstance(b.term.comparators[0], ast.Constant) and b.term.comparators[0].value is None]
+                if none and (none[0].x["taken"] is isinstance(none[0].term.ops[0], ast.Is)):
+                    continue
+                if not none:
+                    continue  # used without the None test: not recognised as a taken parameter
+            out.append((e, ph))
     return out, params_iter
 
 
